@@ -1,10 +1,10 @@
 package drive
 
 import (
-	"goatverif/btc"
-	"google.golang.org/protobuf/encoding/protowire"
 	"encoding/json"
 	"fmt"
+	"goatverif/btc"
+	"google.golang.org/protobuf/encoding/protowire"
 	"math/rand"
 	"os"
 	"strings"
